@@ -555,6 +555,13 @@ func c01prelude() []*c01case {
 		{Enabled: en, Decoys: []string{"zz", attest.K(0).Spelling(3)}, Threshold: 4, Msg: msg, Plan: &plan{Slots: []slot{ex(0, "01", false), ex(1, "01", false), ex(2, "01", false), ex(3, "2728", true)}, Arrange: "asc", Edit: "none"}},
 		{Enabled: en, Threshold: 2, Msg: msg, RawAtt: hex.EncodeToString(make([]byte, 130))},
 	}
+	// registry entries that are a whole key followed by characters that are no hex digits stand for no key: the key they
+	// begin with was never enabled (or was disabled under its own spelling) and must not count
+	k3 := attest.K(3).Spelling(0)
+	for _, junk := range []string{k3 + "zz", strings.TrimPrefix(k3, "0") + "0/01", k3 + "/", "0x" + k3 + " "} {
+		out = append(out, &c01case{Enabled: en[:3], Decoys: []string{junk}, Threshold: 3, Msg: msg,
+			Plan: &plan{Slots: []slot{ex(0, "01", false), ex(1, "01", false), ex(3, "01", false)}, Arrange: "asc", Edit: "none"}})
+	}
 	// enabled attesters, right order, right count - over a digest derived from the message that is not its Keccak-256
 	for i, kind := range attest.DerivedKinds {
 		dv := func(signer int) slot { return slot{Signer: signer, Payload: "derived:" + kind, V: []string{"01", "2728"}[i%2]} }
